@@ -406,7 +406,13 @@ def run_message_property_with(ctx, spec, pre_problems=None):
 
 
 def _n(ctx, quick, thorough):
-    return quick if ctx.tier == "quick" else thorough
+    n = quick if ctx.tier == "quick" else thorough
+    # VERIF_SCALE (default 1): used by the mutation sweep (lib/mutate.py) to trade sensitivity for throughput; never set by
+    # the registered commands
+    try:
+        return max(50, int(n * float(os.environ.get("VERIF_SCALE", "1"))))
+    except ValueError:
+        return n
 
 
 MSG_RULE = ("random well-typed messages of every checked-in generated type without opaque custom types (boundary-biased scalars, "
